@@ -146,20 +146,39 @@ func TryNewAnyDataProvider(val any) (DataProvider, error) {
 
 		valTyp := x.Type().Elem()
 
+		// named map types (type M map[string]string) have the same representation as their underlying type;
+		// anything that is not representable as one of the supported maps is reported, never asserted
+		unsupported := fmt.Errorf("could not convert map[string]%s to a data provider", valTyp.String())
+		asMap := func(target any) (any, bool) {
+			t := reflect.TypeOf(target)
+			if !x.Type().ConvertibleTo(t) {
+				return nil, false
+			}
+			return x.Convert(t).Interface(), true
+		}
 		switch valTyp.Kind() { // TODO: add more types
 		case reflect.String:
-			return NewSafeMapDataProvider(x.Interface().(map[string]string)), nil
+			if m, ok := asMap(map[string]string{}); ok {
+				return NewSafeMapDataProvider(m.(map[string]string)), nil
+			}
 		case reflect.Int:
-			return NewSafeMapDataProvider(x.Interface().(map[string]int)), nil
+			if m, ok := asMap(map[string]int{}); ok {
+				return NewSafeMapDataProvider(m.(map[string]int)), nil
+			}
 		case reflect.Float64:
-			return NewSafeMapDataProvider(x.Interface().(map[string]float64)), nil
+			if m, ok := asMap(map[string]float64{}); ok {
+				return NewSafeMapDataProvider(m.(map[string]float64)), nil
+			}
 		case reflect.Bool:
-			return NewSafeMapDataProvider(x.Interface().(map[string]bool)), nil
+			if m, ok := asMap(map[string]bool{}); ok {
+				return NewSafeMapDataProvider(m.(map[string]bool)), nil
+			}
 		case reflect.Interface:
-			return NewSafeMapDataProvider(x.Interface().(map[string]any)), nil
-		default:
-			return &EmptyDataProvider{Underlying: val}, fmt.Errorf("could not convert map[string]%s to a data provider", valTyp.String())
+			if m, ok := asMap(map[string]any{}); ok {
+				return NewSafeMapDataProvider(m.(map[string]any)), nil
+			}
 		}
+		return &EmptyDataProvider{Underlying: val}, unsupported
 
 	case reflect.Struct:
 		return &StructDataProvider{value: x, tag: nil}, nil
